@@ -64,10 +64,12 @@ type Enc struct {
 	refDone   map[string]bool
 	epochHwm  map[int]Term    // allocation mark at the creation of each heap epoch
 	leafInfo  map[string]leafReg
+	loopEpochs map[int]bool // heap epochs created by loop havocs
+	frameHook func(name string, t Term, sort string)
 }
 
 func NewEnc(db *ContractDB, prog *ssa.Program, pkg *ssa.Package) *Enc {
-	return &Enc{decls: map[string]string{}, funs: map[string]string{}, axiomSet: map[string]bool{}, strConsts: map[string]int{}, typeIDs: map[string]int{}, usedSpecs: map[string]bool{}, db: db, prog: prog, pkg: pkg, assumedUsed: map[string]bool{}, inlinedUsed: map[string]bool{}, havocAllCalls: map[string]bool{}, refLeaf: map[string]int{}, refDone: map[string]bool{}, epochHwm: map[int]Term{}, leafInfo: map[string]leafReg{}}
+	return &Enc{decls: map[string]string{}, funs: map[string]string{}, axiomSet: map[string]bool{}, strConsts: map[string]int{}, typeIDs: map[string]int{}, usedSpecs: map[string]bool{}, db: db, prog: prog, pkg: pkg, assumedUsed: map[string]bool{}, inlinedUsed: map[string]bool{}, havocAllCalls: map[string]bool{}, refLeaf: map[string]int{}, refDone: map[string]bool{}, epochHwm: map[int]Term{}, leafInfo: map[string]leafReg{}, loopEpochs: map[int]bool{}}
 }
 
 func (e *Enc) declare(name, sort string) Term {
@@ -172,6 +174,8 @@ type State struct {
 	rangePos map[ssa.Value]Term // Range instr -> current position
 	promoted map[ssa.Value]Term // local cells whose address escaped: now heap objects
 	inAxiom bool
+	allocSeq map[ssa.Value]int // order in which local cells were (last) allocated
+	seq     int
 	dead   bool
 	trace  []string
 }
@@ -211,6 +215,11 @@ func (s *State) clone() *State {
 	n.rangePos = make(map[ssa.Value]Term, len(s.rangePos))
 	for k, v := range s.rangePos {
 		n.rangePos[k] = v
+	}
+	n.seq = s.seq
+	n.allocSeq = make(map[ssa.Value]int, len(s.allocSeq))
+	for k, v := range s.allocSeq {
+		n.allocSeq[k] = v
 	}
 	n.promoted = make(map[ssa.Value]Term, len(s.promoted))
 	for k, v := range s.promoted {
@@ -296,6 +305,11 @@ func (s *State) heapArr(name, sort string) Term {
 		if h, ok := s.enc.epochHwm[ep]; ok {
 			s.enc.addAxiom(rangeAxiom(t, lv, sort, "0", "", h.S))
 		}
+	}
+	if s.enc.loopEpochs[ep] && s.enc.frameHook != nil && !s.inAxiom {
+		s.inAxiom = true
+		s.enc.frameHook(name, t, sort)
+		s.inAxiom = false
 	}
 	// well-typed memory: slice/string headers and sized integers in this heap version are in range
 	if li, ok := s.enc.leafInfo[name]; ok && !s.inAxiom {
@@ -388,7 +402,7 @@ func (s *State) setHeap(name string, t Term) {
 
 // havocPrefix gives fresh versions to every heap array whose name starts with prefix
 // (including ones not yet materialised).
-func (s *State) havocPrefix(prefix string) {
+func (s *State) havocPrefix(prefix string) int {
 	s.enc.epochCtr++
 	ep := s.enc.epochCtr
 	for k := range s.heap {
@@ -402,6 +416,7 @@ func (s *State) havocPrefix(prefix string) {
 	s.assume(Ge(nh, s.hwm))
 	s.hwm = nh
 	s.enc.epochHwm[ep] = nh
+	return ep
 }
 
 func (s *State) havocAll() {
